@@ -344,6 +344,17 @@ func (s *SpokFile) findClosestMatch(task string) string {
 // If a spokfile is found, it's absolute path will be returned
 // typical usage will make start = $CWD and stop = $HOME.
 func Find(logger logger.Logger, start, stop string) (string, error) {
+	// The walk compares directories by their path, so both must be spelled the same way:
+	// a trailing separator, a relative path or a '.' or '..' element must not make it miss 'stop'
+	start, err := filepath.Abs(start)
+	if err != nil {
+		return "", fmt.Errorf("could not resolve '%s': %w", start, err)
+	}
+	stop, err = filepath.Abs(stop)
+	if err != nil {
+		return "", fmt.Errorf("could not resolve '%s': %w", stop, err)
+	}
+
 	for {
 		logger.Debug("Looking in %s for spokfile", start)
 		entries, err := os.ReadDir(start)
